@@ -33,6 +33,9 @@ def step' (st : St) : List String → St × String
   | ["from", id, u, n] => match n.toInt? with
     | some n => doStep st (.createFrom (dec id) u n) id
     | none => (st, "bad-op")
+  | ["fromlc", id, u, n] => match n.toInt? with      -- destination channel spelled in lower case
+    | some n => doStep st (.createFrom (dec id) u n) id
+    | none => (st, "bad-op")
   | ["fromadm", id, u, n] => match n.toInt? with
     | some n => doStep st (.createFrom (dec id) u n) id
     | none => (st, "bad-op")
@@ -54,6 +57,7 @@ def clause : List String → String
   | "dump" :: _ => "balances_and_records"
   | "from" :: _ => "debit_once"
   | "fromadm" :: _ => "debit_once"
+  | "fromlc" :: _ => "debit_once"
   | "to" :: _ => "credit_at_most_once"
   | "cancel" :: _ => "refund_exact"
   | "xto" :: _ | "xcommit" :: _ | "xdelto" :: _ | "xdelfrom" :: _ | "xcancel" :: _ => "robot_step_by_stranger"
